@@ -29,7 +29,7 @@
    field differs from the expected value (no spurious failure).  Ghost state: the pool of completed
    claims (tagged with the claiming thread) and, per thread, the bits held by the operation in
    progress (a function of its program counter, `held`). *)
-From Coq Require Import NArith List Bool.
+From Coq Require Import NArith PeanoNat List Bool.
 From MiV Require Import Gen.Consts Model.Arith.
 Import ListNotations.
 Local Open Scope N_scope.
@@ -611,7 +611,10 @@ Definition enter (fields : N) (pool : list (nat * (N * N))) (o : op)
   : pc * gev * list (nat * (N * N)) :=
   match o with
   | OpClaim start count =>
-      if (count =? 0) || (fields =? 0) then (Idle, GClaimFailed, pool)
+      (* count = 0 violates the assertion of the C code; for count >= 2^64-64 the C code computes
+         _mi_divide_up(count - initial, 64) with wrap-around and would scan beyond the bitmap: both
+         are outside the domain of the function (arena block counts are below 2^39) *)
+      if (count =? 0) || (fields =? 0) || (W64 <=? count + 64) then (Idle, GClaimFailed, pool)
       else
         let idx := if fields <=? start then 0 else start in
         (attempt_pc (mkCL count 0 idx 0 0 0 0), GNone, pool)
@@ -705,7 +708,7 @@ Definition finished (s : state) : bool :=
 
 (* ---- the invariant, in boolean form ---- *)
 
-Definition b2n (b : bool) : nat := if b then 1%nat else 0%nat.
+Notation b2n := Nat.b2n (only parsing).
 
 Definition wf_claim (fields : N) (c : N * N) : bool :=          (* a completed claim (start, count) *)
   (1 <=? snd c) && (fst c + snd c <=? 64 * fields).
@@ -715,7 +718,7 @@ Definition mid_bits (l : clocals) : N := cl_initial l + 64 * (cl_final l - cl_id
 Definition wfA (fields : N) (l : clocals) : bool :=
   (cl_idx l <? cl_final l) && (cl_final l <? fields) &&
   (1 <=? cl_initial l) && (cl_initial l <=? 64) &&
-  (mid_bits l <? cl_count l) && (cl_count l <=? mid_bits l + 64) &&
+  (mid_bits l <? cl_count l) && (cl_count l <=? mid_bits l + 64) && (cl_count l + 64 <? W64) &&
   (cl_fmask l =? mask_ (cl_count l - mid_bits l) 0).
 
 Definition wf_pc (fields : N) (p : pc) : bool :=
@@ -725,11 +728,12 @@ Definition wf_pc (fields : N) (p : pc) : bool :=
   | FCas l map bitidx m =>
       (cl_idx l <? fields) && (1 <=? cl_count l) && (bitidx + cl_count l <=? 64) &&
       (m =? mask_ (cl_count l) bitidx) && (N.land map m =? 0)
-  | ALoad l => (cl_idx l <? fields) && (1 <=? cl_count l)
+  | ALoad l => (cl_idx l <? fields) && (1 <=? cl_count l) && (cl_count l + 64 <? W64)
   | AScan l j found =>
       (1 <=? cl_initial l) && (cl_initial l <=? 64) && (cl_idx l <? j) &&
       (found =? cl_initial l + 64 * (j - cl_idx l - 1)) && (found <? cl_count l) &&
-      (cl_count l - cl_initial l <=? 64 * (fields - cl_idx l - 1)) && (cl_idx l <? fields)
+      (cl_count l - cl_initial l <=? 64 * (fields - cl_idx l - 1)) && (cl_idx l <? fields) &&
+      (cl_count l + 64 <? W64)
   | AInitLoad l | AFinalLoad l | ARollInitLoad l | ARollInitCas l _ => wfA fields l
   | AInitCas l map => wfA fields l && (N.land map (initial_mask l) =? 0)
   | AMidCas l j | ARollStore l j => wfA fields l && (cl_idx l <? j) && (j <? cl_final l)
